@@ -1,1 +1,44 @@
-fn main(){}
+//! vh: conformance harness. `vh <engine> --cases <file> --out <trace.ndjson> [--seed N] [--tier quick|thorough]`
+mod common;
+mod eng_server;
+mod eng_session;
+mod feops;
+mod rec;
+mod wire;
+
+use common::*;
+
+fn arg(args: &[String], name: &str) -> Option<String> {
+    args.iter().position(|a| a == name).and_then(|i| args.get(i + 1).cloned())
+}
+
+fn main() {
+    let args: Vec<String> = std::env::args().collect();
+    if args.len() < 2 {
+        eprintln!("usage: vh <engine> --cases F --out F [--seed N] [--tier T]");
+        std::process::exit(2);
+    }
+    let engine = args[1].as_str();
+    let seed: u64 = arg(&args, "--seed").and_then(|s| s.parse().ok()).unwrap_or(1);
+    let _tier = arg(&args, "--tier").unwrap_or_else(|| "quick".into());
+    let out = arg(&args, "--out").expect("--out");
+    // panics in code under test are data: keep the default hook quiet
+    std::panic::set_hook(Box::new(|_| {}));
+    let mut trace = Trace::create(&out);
+    match engine {
+        "server" => {
+            let cases = read_cases(&arg(&args, "--cases").expect("--cases"));
+            eng_server::run(&cases, &mut trace, seed);
+        }
+        "session" => {
+            let cases = read_cases(&arg(&args, "--cases").expect("--cases"));
+            eng_session::run(&cases, &mut trace, seed);
+        }
+        _ => {
+            eprintln!("unknown engine {engine}");
+            std::process::exit(2);
+        }
+    }
+    trace.flush();
+    eprintln!("vh {engine}: {} events", trace.n);
+}
